@@ -1,4 +1,4 @@
-import TextxVerif.Proofs.RepoEntryFail
+import TextxVerif.Proofs.RepoRepair
 /-!
 # C18 — a failing multi-file load leaves the model repositories clean
 
@@ -156,6 +156,89 @@ theorem C18_preload_fail (S : Spec) (hg : S.glob = true) (fuel : Nat) (calls : L
         ((c = none ∧ st' = st1) ∨ ∃ g j, c = some g ∧ loadMain S fuel st1 g = (st', .fail k, j)) :=
   preload_fail S hg fuel calls st0 st' k hwf h
 
+/-! ## "after the failing file is corrected, the next load succeeds" -/
+
+/-- name `n`, referenced in file `g`, has a **visible definition** for a load that starts from the dict of
+`b`: it is defined in `g` itself, or in a file `g` asks `load_model` for — as that file is cached in `b`,
+or, when it is not cached, as it is on disk now —, or in a builtin model.  (`visible` is the executable
+version the driver reports; the harness compares it with the outcome of the real load.) -/
+def Visible (S : Spec) (b : St) (g : File) (n : Name) : Prop :=
+  n ∈ S.defs g ∨ (∃ h, some h ∈ S.calls g ∧ n ∈ defsNow S b h) ∨ ∃ bl ∈ S.builtins, n ∈ bl
+
+theorem C18_visible_iff (S : Spec) (b : St) (g : File) (n : Name) : visible S b g n = true ↔ Visible S b g n := by
+  unfold visible Visible
+  simp only [Bool.or_eq_true, List.any_eq_true, List.mem_filterMap, id, List.contains_iff_mem, or_assoc]
+  constructor
+  · rintro (h | ⟨h', ⟨c, hc, rfl⟩, hn⟩ | h)
+    · exact Or.inl h
+    · exact Or.inr (Or.inl ⟨_, hc, hn⟩)
+    · exact Or.inr (Or.inr h)
+  · rintro (h | ⟨h', hc, hn⟩ | h)
+    · exact Or.inl h
+    · exact Or.inr (Or.inl ⟨h', ⟨some h', hc, rfl⟩, hn⟩)
+    · exact Or.inr (Or.inr h)
+
+/-- **Why a load fails at reference resolution.**  Whatever the files and faults, a load (either kind of
+main model) that ends with an unresolvable-reference error has, in the non-cached import closure of its
+main model, a file with a reference that has no visible definition.  No other cause exists: not a model
+left over from a failed attempt, not a second instance of a file. -/
+theorem C18_semantic_cause (S : Spec) (fuel : Nat) (st0 : St) (e : Entry) (st' : St) (j : Inst)
+    (hwf : WF st0) (he : e.Admissible S st0) (h : e.run S fuel st0 = (st', .fail .semantic, j)) :
+    ∃ g n, Reach S (base S st0).all.keys e.main g ∧ n ∈ S.refs g ∧ ¬ Visible S (base S st0) g n := by
+  obtain ⟨g, n, hr, hn, hv⟩ := Entry.run_semantic S fuel st0 e (hwf.base S) he h
+  refine ⟨g, n, hr, hn, fun hV => ?_⟩
+  rw [(C18_visible_iff S _ g n).2 hV] at hv
+  cases hv
+
+/-- **The repaired load succeeds.**  In a well-formed state (in particular the state a failed load leaves,
+`C18_entry_clean`), a load whose files have no fault any more, with fuel for a set of files closed under
+imports, and in which every reference of every file of the non-cached import closure has a visible
+definition, ends `ok` (and then `C18_entry_repair` / the C17 theorems describe the result). -/
+theorem C18_repair_succeeds (S' : Spec) (fuel' : Nat) (st' : St) (e' : Entry) (hwf : WF st')
+    (he : e'.Admissible S' st') (hS : NoFault S') (U : List File)
+    (hU : ∀ h ∈ U, ∀ x, some x ∈ S'.calls h → x ∈ U) (hmU : e'.main ∈ U) (hn : U.length ≤ fuel')
+    (hv : ∀ g, Reach S' (base S' st').all.keys e'.main g → ∀ n ∈ S'.refs g, Visible S' (base S' st') g n) :
+    (e'.run S' fuel' st').2.1 = .ok :=
+  Entry.run_succeeds S' hS U hU fuel' st' e' hmU (hwf.base S') he hn
+    (fun g hr n hn' => (C18_visible_iff S' _ g n).2 (hv g hr n hn'))
+
+/-- **Fail, repair, succeed** in one statement: after a load failed (any entry point, any phase, with or
+without a global repository), the next load with corrected files succeeds as soon as every reference in
+its closure has a visible definition. -/
+theorem C18_fail_then_repair (S S' : Spec) (fuel fuel' : Nat) (st0 : St) (e e' : Entry) (st' : St) (k : Kind) (j : Inst)
+    (hwf : WF st0) (hgg : S'.glob = S.glob) (he : e.Admissible S st0) (h : e.run S fuel st0 = (st', .fail k, j))
+    (he' : e'.Admissible S' st') (hS : NoFault S') (U : List File)
+    (hU : ∀ h ∈ U, ∀ x, some x ∈ S'.calls h → x ∈ U) (hmU : e'.main ∈ U) (hn : U.length ≤ fuel')
+    (hv : ∀ g, Reach S' (base S' st').all.keys e'.main g → ∀ n ∈ S'.refs g, Visible S' (base S' st') g n) :
+    (e'.run S' fuel' st').2.1 = .ok := by
+  have hwf' : WF (base S' st') := by
+    cases hg : S.glob with
+    | false => exact wf_base_noGlob S' st' (by rw [hgg, hg])
+    | true =>
+      rw [base_of_glob S' st' (by rw [hgg, hg])]
+      exact (C18_entry_clean S fuel st0 e st' k j hwf hg he h).2
+  exact Entry.run_succeeds S' hS U hU fuel' st' e' hmU hwf' he' hn
+    (fun g hr n hn' => (C18_visible_iff S' _ g n).2 (hv g hr n hn'))
+
+/-- the same with decidable hypotheses: a set `U` of files closed under imports (`closedB`) all of whose
+references are visible (`visible`) -/
+theorem C18_repair_succeeds_univ (S' : Spec) (fuel' : Nat) (st' : St) (e' : Entry) (hwf : WF st')
+    (he : e'.Admissible S' st') (hS : NoFault S') (U : List File) (hU : closedB S' U = true) (hmU : e'.main ∈ U)
+    (hn : U.length ≤ fuel') (hv : unresolved S' (base S' st') U = []) :
+    (e'.run S' fuel' st').2.1 = .ok := by
+  refine Entry.run_succeeds S' hS U (closedB_spec hU) fuel' st' e' hmU (hwf.base S') he hn ?_
+  intro g hr n hn'
+  have hgU := Reach.mem_closed (closedB_spec hU) hmU hr
+  cases hvis : visible S' (base S' st') g n with
+  | true => rfl
+  | false =>
+    exfalso
+    have : (g, n) ∈ unresolved S' (base S' st') U := by
+      unfold unresolved
+      refine List.mem_flatMap.2 ⟨g, hgU, List.mem_map.2 ⟨n, List.mem_filter.2 ⟨hn', by simp [hvis]⟩, rfl⟩⟩
+    rw [hv] at this
+    cases this
+
 /-! ## non-vacuity: every phase failing in an imported file and in the main file -/
 
 /-- file 0 imports 1 and 2, file 1 imports 2 and 0; the fault sits in file `v` -/
@@ -215,5 +298,30 @@ example : (preload (exG 0 1) 4 St.init [some 0, some 1]).2 = .fail .syntax ∧
     (preload (exG 0 1) 4 St.init [some 0, some 1]).1.all = [] := by decide
 example : (preload (exG 9 0) 4 St.init [some 0, none]).2 = .fail .io ∧
     (preload (exG 9 0) 4 St.init [some 0, none]).1.all = [(0, 0), (1, 1)] := by decide
+
+/-! ## non-vacuity of "the repaired load succeeds" -/
+
+/-- the state the failing load leaves (model processor fault on the main file, file 3 cached before) -/
+def exSt' : St := (loadMain (exF 3 0) 4 exSt 0).1
+
+theorem exF_nofault : NoFault (exF 9 0) :=
+  ⟨fun g => by simp [exF], fun g => by simp [exF], fun g => by simp [exF], fun g => by
+    simp only [exF]
+    split <;> simp⟩
+
+example : closedB (exF 9 0) [0, 1, 2] = true := by decide
+example : unresolved (exF 9 0) (base (exF 9 0) exSt') [0, 1, 2] = [] := by decide
+-- while the unrepaired files have a reference without visible definition, and that load fails there
+example : unresolved (exF 1 1) (base (exF 1 1) exSt) [0, 1, 2] = [(1, 99)] := by decide
+example : Visible (exF 9 0) (base (exF 9 0) exSt') 0 7 := (C18_visible_iff _ _ _ _).1 (by decide)
+example : ¬ Visible (exF 1 1) (base (exF 1 1) exSt) 1 99 := fun h => by
+  have := (C18_visible_iff _ _ _ _).2 h
+  revert this; decide
+/-- all hypotheses of `C18_repair_succeeds_univ` hold for the repaired reload after the failure -/
+example : (Entry.run (exF 9 0) 4 exSt' (.file 0)).2.1 = .ok :=
+  C18_repair_succeeds_univ (exF 9 0) 4 exSt' (.file 0)
+    (C18_clean (exF 3 0) 4 exSt 0 exSt' .modproc 0
+      (C17_identity (exF 9 0) 4 St.init 3 exSt 0 WF.init (by decide)).1 rfl (by decide)).2
+    trivial exF_nofault [0, 1, 2] (by decide) (by decide) (by decide) (by decide)
 
 end Repo
